@@ -396,5 +396,5 @@ package htlcswitch
 //@
 //@ func (f *interceptedForward) ResumeModified$3
 //@   props C09
-//@   site store htlcPacket.amount: assert value == amount
+//@   site store htlcPacket.amount: assert value == entry(amount)
 //@   site store UpdateAddHTLC.Amount: assert value == amount
